@@ -140,6 +140,17 @@ Theorem SrcTie_joinstep_collection_add_fresh : forall collection js,
 Proof. exact joinstep_collection_add_fresh. Qed.
 Print Assumptions SrcTie_joinstep_collection_add_fresh.
 
+(* mloda/core/prepare/resolve_compute_frameworks.py  ResolveComputeFrameworks.order_queue_by_trekker_order: the five nested
+   loops with the `breaker` flags, the defaultdict of postponed links and the inner `k` that shadows the outer one ARE
+   PlannerL.order_queue (blocked / iadd / oq_step), for every planned queue, every LinkTrekker.order and every order oracle;
+   in particular the function never raises.  The set of links postponed under link k is iterated in the order
+   PlannerL.ordk ord (site_issue k) - the one place where the order is not determined by the program. *)
+Theorem SrcTie_order_queue_by_trekker_order : forall ord planned_queue link_trekker,
+  ResolveComputeFrameworks_order_queue_by_trekker_order ord planned_queue link_trekker
+  = PlannerL.order_queue ord (PlannerL.t_order link_trekker) planned_queue.
+Proof. exact order_queue_by_trekker_order_src. Qed.
+Print Assumptions SrcTie_order_queue_by_trekker_order.
+
 (* non-vacuity: the regenerated definitions compute, on both sides of each decision *)
 Example SrcTie_examples :
   Index_is_a_part_of_ ["a"%string] ["a"%string; "b"%string] = Ok true /\
@@ -156,4 +167,15 @@ Example SrcTie_examples :
   LinkValidator_validate_no_double_joins
     [ {| jt := INNER; lfg := 0%nat; rfg := 1%nat; lidx := ["k"%string]; ridx := ["k"%string] |};
       {| jt := LEFT; lfg := 1%nat; rfg := 0%nat; lidx := ["k"%string]; ridx := ["k"%string] |} ] = Raise ValueError.
+Proof. vm_compute. repeat split. Qed.
+
+(* the planner targets compute: link 4 waits for link 0 and arrives first, so it is postponed and follows directly behind it;
+   two join steps that share framework 1: the second one requires the uuids of the first *)
+Example SrcTie_plan_examples :
+  ResolveComputeFrameworks_order_queue_by_trekker_order PlannerA.ord_id
+    [PlannerL.PL (4, (1, 2)); PlannerL.PG 7 [3]; PlannerL.PL (0, (0, 1))]%nat
+    {| PlannerL.t_data := []; PlannerL.t_dor := []; PlannerL.t_order := [(0, [4])]%nat |}
+  = [PlannerL.PG 7 [3]; PlannerL.PL (0, (0, 1)); PlannerL.PL (4, (1, 2))]%nat /\
+  JoinStepCollection_similar_dependent_joins_uuids [((0, (0, 1)), []); ((4, (2, 3)), [])]%nat 1%nat 5%nat = [1; 0]%nat /\
+  snd (JoinStepCollection_add [((0, (0, 1)), [])]%nat (4, (1, 2))%nat) = [((0, (0, 1)), []); ((4, (1, 2)), [1; 0])]%nat.
 Proof. vm_compute. repeat split. Qed.
